@@ -566,35 +566,41 @@ def RemInvE (c : Cfg) (e : Env) (g : RemSt) (s : St) : Prop :=
 
 theorem RemInvE_mono {c : Cfg} {e : Env} {g g' : RemSt} {s s' : St} (hi : RemInvE c e g s)
     (hl : g'.lastProb = g.lastProb) (hq : g'.quiet = true → g.quiet = true)
-    (hn : 0 < c.interval → s.next ≤ s'.next) (hm : g'.quiet = true → s.noMore = true → s'.noMore = true) :
+    (hn : 0 < c.interval → s.next ≤ s'.next) (hm : g'.quiet = true → c.interval ≤ 0 → s.noMore = true → s'.noMore = true) :
     RemInvE c e g' s' := by
   intro t1 l h
   rw [hl] at h
   obtain ⟨a, b, c', d, f⟩ := hi t1 l h
   refine ⟨a, b, c', ?_, ?_⟩
   · intro hpos; have := d hpos; have := hn hpos; omega
-  · intro hq' hint; exact hm hq' (f (hq hq') hint)
+  · intro hq' hint; exact hm hq' hint (f (hq hq') hint)
 
 theorem pre_next (s : St) (ty : NType) : (pre s ty).next = s.next ∧ (pre s ty).noMore = s.noMore := by
   unfold pre; cases (ty == NType.recovery) <;> simp
 
-theorem reminder_begin_core (c : Cfg) (k : OpKind) (e : Env) (ty : NType) (force rem : Bool)
+/-- The side condition of the strict checker: no event re-arms the reminder of an `interval ≤ 0` object (F-C03c). -/
+def NoRearm (strict : Bool) (c : Cfg) (ev : Event) : Prop := strict = true → rearms c ev = false
+
+theorem reminder_begin_core (strict : Bool) (c : Cfg) (k : OpKind) (e : Env) (ty : NType) (force rem : Bool)
     (g : RemSt) (s : St) (hi : RemInvE c e g s)
     (hrem : rem = true → k = .tick ∧ ty = .problem ∧ remCondOk e = true ∧ remSpacingOk c e g = true ∧
       remInterval0Ok c g = true ∧ e.ckProblemPending = false) :
     (match (beginExec c s ty force rem e).2 with
      | none => RemInvE c e g (beginExec c s ty force rem e).1
-     | some ev => (reminderEv c k e g ev).1 = none ∧ RemInvE c e (reminderEv c k e g ev).2 (beginExec c s ty force rem e).1) := by
+     | some ev => NoRearm strict c ev →
+        (reminderEv strict c k e g ev).1 = none ∧ RemInvE c e (reminderEv strict c k e g ev).2 (beginExec c s ty force rem e).1) := by
   obtain ⟨pn, pm⟩ := pre_next s ty
   -- a filtered Recovery is never a reminder
   have hfilt : ∀ s' : St, (0 < c.interval → s.next ≤ s'.next) → (ty ≠ .recovery → s.noMore = true → s'.noMore = true) →
       (match filteredEv ty rem force with
        | none => RemInvE c e g s'
-       | some ev => (reminderEv c k e g ev).1 = none ∧ RemInvE c e (reminderEv c k e g ev).2 s') := by
+       | some ev => NoRearm strict c ev →
+          (reminderEv strict c k e g ev).1 = none ∧ RemInvE c e (reminderEv strict c k e g ev).2 s') := by
     intro s' hn hm
     rcases filteredEv_cases ty rem force with ⟨hne, h'⟩ | ⟨hre, h'⟩
-    · rw [h']; exact RemInvE_mono hi rfl id hn (fun _ => hm hne)
+    · rw [h']; exact RemInvE_mono hi rfl id hn (fun _ _ => hm hne)
     · rw [h']
+      intro _
       have hr : rem = false := by
         cases rem
         · rfl
@@ -632,7 +638,8 @@ theorem reminder_begin_core (c : Cfg) (k : OpKind) (e : Env) (ty : NType) (force
   · obtain ⟨_, hb, _, _, _, h⟩ := h
     rw [h]
     simp only [passedResult]
-    have hchk : (reminderEv c k e g ⟨ty, rem, true, force, (userLoop c ty force rem e (book c (pre s ty) ty e).npu
+    intro hP
+    have hchk : (reminderEv strict c k e g ⟨ty, rem, true, force, (userLoop c ty force rem e (book c (pre s ty) ty e).npu
         (book c (pre s ty) ty e).lns e.users).2.2⟩).1 = none := by
       cases hr : rem
       · simp [reminderEv]
@@ -661,7 +668,7 @@ theorem reminder_begin_core (c : Cfg) (k : OpKind) (e : Env) (ty : NType) (force
         · intro _ hint
           simp [book, hint]
       · subst hf
-        have hg : (reminderEv c k e g ⟨.problem, rem, true, true, (userLoop c .problem true rem e (book c (pre s .problem) .problem e).npu
+        have hg : (reminderEv strict c k e g ⟨.problem, rem, true, true, (userLoop c .problem true rem e (book c (pre s .problem) .problem e).npu
             (book c (pre s .problem) .problem e).lns e.users).2.2⟩).2 = g := by
           simp [reminderEv]
         rw [hg]
@@ -679,11 +686,23 @@ theorem reminder_begin_core (c : Cfg) (k : OpKind) (e : Env) (ty : NType) (force
         · simp [book, pn]
         · simp [book, pm]
       · have h4 : (ty == NType.custom) = false := by simpa using hcus
-        apply RemInvE_mono hi
-        · simp [reminderEv, h3, h4]
-        · simp [reminderEv, h3, h4]
-        · simp [book, pn, h3]
-        · simp [reminderEv, h3, h4]
+        by_cases hloose : (ty == NType.recovery || !strict) = true
+        · apply RemInvE_mono hi
+          · simp [reminderEv, h3, h4, hloose]
+          · simp [reminderEv, h3, h4, hloose]
+          · simp [book, pn, h3]
+          · simp [reminderEv, h3, h4, hloose]
+        · -- strict, and neither Problem, Custom nor Recovery: the event re-arms unless `interval > 0`
+          have hl : (ty == NType.recovery || !strict) = false := by simpa using hloose
+          simp only [Bool.or_eq_false_iff, Bool.not_eq_false'] at hl
+          have hpos : ¬ c.interval ≤ 0 := by
+            have := hP hl.2
+            simpa [rearms, h3, h4, hl.1] using this
+          apply RemInvE_mono hi
+          · simp [reminderEv, h3, h4, hl.1, hl.2]
+          · simp [reminderEv, h3, h4, hl.1, hl.2]
+          · simp [book, pn, h3]
+          · intro _ hint; exact absurd hint hpos
 
 /-! ## Operations -/
 
@@ -800,7 +819,7 @@ theorem dropped_noop (c : Cfg) (s : St) (op : Op) (h : recoveryDropped (applyOp 
     simp only [recoveryDropped, applyOp, Bool.and_eq_true, beq_iff_eq, Bool.not_eq_true'] at h
     have hb : sendBlocked e = true := by
       simp only [sendBlocked, Bool.and_eq_true, Bool.not_eq_true']
-      exact ⟨by simpa using h.2, h.1.2⟩
+      exact ⟨by simpa using h.1.2, h.1.1.2⟩
     simp [applyOp, sendStep, hb]
   | tick e => simp [recoveryDropped, applyOp] at h
 
@@ -856,17 +875,17 @@ theorem RemInvE_forget (c : Cfg) (e : Env) (g : RemSt) (s : St) (h : RemInvE c e
   obtain ⟨_, _, a, b, d⟩ := h t1 l hl
   exact ⟨a, b, d⟩
 
-theorem reminder_begin (c : Cfg) (k : OpKind) (e : Env) (ty : NType) (force : Bool) :
-    Pres (reminderEv c k e) (RemInvE c e) (fun _ => True) (beginStep c ty force false e) := by
+theorem reminder_begin (strict : Bool) (c : Cfg) (k : OpKind) (e : Env) (ty : NType) (force : Bool) :
+    Pres (reminderEv strict c k e) (RemInvE c e) (NoRearm strict c) (beginStep c ty force false e) := by
   apply Pres_begin
   intro g s hi
-  have := reminder_begin_core c k e ty force false g s hi (by simp)
+  have := reminder_begin_core strict c k e ty force false g s hi (by simp)
   rcases hq : (beginExec c s ty force false e).2 with _ | ev
   · rw [hq] at this; exact this
-  · rw [hq] at this; intro _; exact this
+  · rw [hq] at this; exact this
 
-theorem reminder_reminderStep (c : Cfg) (e : Env) :
-    Pres (reminderEv c .tick e) (RemInvE c e) (fun _ => True) (reminderStep c e) := by
+theorem reminder_reminderStep (strict : Bool) (c : Cfg) (e : Env) :
+    Pres (reminderEv strict c .tick e) (RemInvE c e) (NoRearm strict c) (reminderStep c e) := by
   intro g s hi _
   simp only [reminderStep]
   cases hd : reminderDue c s e
@@ -913,29 +932,39 @@ theorem reminder_reminderStep (c : Cfg) (e : Env) :
               · exact absurd hint h
               · rw [this] at h; cases h
             · simp [hint]
-      have := reminder_begin_core c .tick e .problem false true g _ hi1
+      have := reminder_begin_core strict c .tick e .problem false true g _ hi1
         (fun _ => ⟨rfl, rfl, hcond, hsp, hi0, hck⟩)
       rw [evFold_opt]
       rcases hq : (beginExec c { s with next := e.now + c.interval } .problem false true e).2 with _ | ev
       · rw [hq] at this; exact ⟨rfl, this⟩
-      · rw [hq] at this; exact this
+      · rw [hq] at this
+        apply this
+        -- a reminder is a Problem: it never re-arms
+        intro _
+        have hty : ev.ty = .problem := by
+          rcases beginExec_split c { s with next := e.now + c.interval } .problem false true e with ⟨h, _, _⟩ | ⟨_, _, _, _, _, h⟩
+          · rw [h] at hq; simp [filteredEv] at hq
+          · rw [h] at hq; simp only [passedResult, Option.some.injEq] at hq; rw [← hq]
+        simp [rearms, hty]
 
-theorem reminder_op (c : Cfg) (g : RemSt) (s : St) (op : Op) (hi : RemInv c g s) :
-    (reminderObs c g (applyOp c s op).2).1 = none ∧ RemInv c (reminderObs c g (applyOp c s op).2).2 (applyOp c s op).1 := by
+theorem reminder_op (strict : Bool) (c : Cfg) (g : RemSt) (s : St) (op : Op) (hi : RemInv c g s)
+    (hp : allEv (NoRearm strict c) (applyOp c s op).2) :
+    (reminderObsOf strict c g (applyOp c s op).2).1 = none ∧
+      RemInv c (reminderObsOf strict c g (applyOp c s op).2).2 (applyOp c s op).1 := by
   cases op with
   | send ty e =>
     have hstash : ∀ (g : RemSt) (s : St) (l : List (NType × Bool)), RemInvE c e g s → RemInvE c e g { s with stash := l } :=
       fun _ _ _ h => h
-    have := Pres_send (f := reminderEv c .send e) c ty e hstash (fun _ _ => reminder_begin c .send e ty e.force)
-      (remValidate e g) s (RemInv_validate c e g s hi) (fun _ _ => trivial)
+    have := Pres_send (f := reminderEv strict c .send e) c ty e hstash (fun _ _ => reminder_begin strict c .send e ty e.force)
+      (remValidate e g) s (RemInv_validate c e g s hi) hp
     exact ⟨this.1, RemInvE_forget c e _ _ this.2⟩
   | tick e =>
     have hsup : ∀ (g : RemSt) (s : St) (sup : Sup), RemInvE c e g s → RemInvE c e g { s with sup := sup } := fun _ _ _ h => h
     have hstash : ∀ (g : RemSt) (s : St) (l : List (NType × Bool)), RemInvE c e g s → RemInvE c e g { s with stash := l } :=
       fun _ _ _ h => h
-    have := Pres_tick (f := reminderEv c .tick e) c e hsup hstash
-      (fun _ ty force => reminder_begin c .tick e ty force) (fun _ => reminder_reminderStep c e)
-      (remValidate e g) s (RemInv_validate c e g s hi) (fun _ _ => trivial)
+    have := Pres_tick (f := reminderEv strict c .tick e) c e hsup hstash
+      (fun _ ty force => reminder_begin strict c .tick e ty force) (fun _ => reminder_reminderStep strict c e)
+      (remValidate e g) s (RemInv_validate c e g s hi) hp
     exact ⟨this.1, RemInvE_forget c e _ _ this.2⟩
 
 theorem evFold_none_mem {G : Type} (f : G → Event → Option Clause × G) :
